@@ -4,7 +4,9 @@ import (
 	"bytes"
 	"context"
 	"encoding/json"
+	"errors"
 	"fmt"
+	"io/fs"
 	"math/rand"
 	"os"
 	"os/exec"
@@ -64,6 +66,11 @@ func (raceStream) Generate(rng *rand.Rand, tier string, emit func(Case)) {
 	for _, o := range []string{"ListDevices", "InjectDevices", "GetSpecDirErrors", "GetErrors", "WriteSpec", "RemoveSpec"} {
 		mk([]string{o}, true)
 	}
+	// two writers of different files; caches being created while the directory changes; first use of the
+	// package-level default cache from several goroutines at once
+	mk([]string{"WriteSpec", "WriteSpec", "Refresh"}, true)
+	mk([]string{"NewCache", "NewCache", "ListDevices"}, true)
+	mk([]string{"DefaultCache", "DefaultCache", "DefaultCache", "DefaultCache"}, true)
 	// a cache without any Spec directory (the operations' error paths)
 	for _, ops := range [][]string{{"RemoveSpec", "ListDevices"}, {"WriteSpec", "GetErrors"}, {"RemoveSpec", "WriteSpec", "Configure", "Refresh", "InjectDevices"}} {
 		emit(Case{"op": "race", "ops": strs2any(ops), "iters": iters, "auto": true, "nodirs": true, "seed": rng.Int63()})
@@ -263,6 +270,7 @@ func childRacer(args []string) int {
 		}
 	}
 
+	var defaultSeen atomic.Pointer[cdi.Cache]
 	var stop int32
 	var wg, flipper sync.WaitGroup
 	// the directory flips atomically between the two states (rename over the Spec file)
@@ -354,8 +362,42 @@ func childRacer(args []string) int {
 				case "GetSpecDirErrors":
 					for range cache.GetSpecDirErrors() {
 					}
+				case "NewCache":
+					// construction races with the watcher goroutine it starts (the directory is flipping)
+					nc, _ := cdi.NewCache(cdi.WithSpecDirs(dirs...), cdi.WithAutoRefresh(true))
+					classify("NewCache+ListDevices", nc.ListDevices())
+					_ = nc.Configure(cdi.WithAutoRefresh(false))
+				case "DefaultCache":
+					// every goroutine must get the same default cache, also at the very first use
+					switch (ti + it) % 3 {
+					case 0:
+						_ = cdi.Configure(cdi.WithSpecDirs(dirs...), cdi.WithAutoRefresh(false))
+					case 1:
+						_ = cdi.Refresh()
+					}
+					dc := cdi.GetDefaultCache()
+					if prev := defaultSeen.Swap(dc); prev != nil && prev != dc {
+						mix("GetDefaultCache: two different default caches")
+					}
 				case "WriteSpec":
-					_ = cache.WriteSpec(extra, fmt.Sprintf("extra-%d.yaml", ti))
+					// every writer writes its own file with its own content and reads it back
+					own := &specs.Spec{Version: specs.CurrentVersion, Kind: fmt.Sprintf("extra%d.com/dev", ti), Devices: []specs.Device{{Name: "x",
+						ContainerEdits: specs.ContainerEdits{Env: []string{fmt.Sprintf("WRITER=%d", ti), "PAD=" + strings.Repeat("p", 200*ti)}}}}}
+					name := fmt.Sprintf("extra-%d.yaml", ti)
+					if ti%2 == 1 {
+						name = fmt.Sprintf("extra-%d.json", ti)
+					}
+					if err := cache.WriteSpec(own, name); err == nil && len(dirs) > 0 {
+						got, rerr := cdi.ReadSpec(filepath.Join(dirs[len(dirs)-1], name), 0)
+						if rerr != nil && errors.Is(rerr, fs.ErrNotExist) {
+							continue // removed by a concurrent RemoveSpec
+						}
+						if rerr != nil || got.Kind != own.Kind || len(got.Devices) != 1 ||
+							len(got.Devices[0].ContainerEdits.Env) != 2 || got.Devices[0].ContainerEdits.Env[0] != own.Devices[0].ContainerEdits.Env[0] {
+							mix("WriteSpec: %s read back differs from what writer %d wrote (err %v)", name, ti, rerr)
+						}
+					}
+					_ = extra
 				case "RemoveSpec":
 					_ = cache.RemoveSpec(fmt.Sprintf("extra-%d.yaml", (ti+1)%len(c.Ops)))
 				}
